@@ -32,6 +32,9 @@ type c02Scenario struct {
 	Transition string    `json:"transition"` // DEPLOY CONFIGURE START_ACTIVITY STOP_ACTIVITY RESET
 	Tasks      []c02Task `json:"tasks"`
 	Hosts      int       `json:"hosts"`
+	// Special: "silent-hook-task" = a non-critical hook task triggered at before_<transition> accepts the trigger
+	// and never answers; every task of the transition itself acknowledges (own driver: c02SilentHook)
+	Special string `json:"special,omitempty"`
 }
 
 var c02TaskEvent = map[string]string{"CONFIGURE": "CONFIGURE", "START_ACTIVITY": "START", "STOP_ACTIVITY": "STOP", "RESET": "RESET"}
@@ -48,6 +51,9 @@ func (sc c02Scenario) expectSuccess() bool {
 }
 
 func (sc c02Scenario) class() string {
+	if sc.Special != "" {
+		return sc.Transition + "/" + sc.Special
+	}
 	// canonical: transition, number of tasks, and the sorted multiset of (crit, outcome) of non-ok tasks
 	var parts []string
 	for _, t := range sc.Tasks {
@@ -131,6 +137,9 @@ func c02Scenarios(c *vlib.Ctx) []c02Scenario {
 		c02Scenario{Transition: "DEPLOY", Hosts: 2, Tasks: []c02Task{{Name: "victim", Critical: true, Mode: "direct", Host: 1, Outcome: "offer-late"}}},
 		c02Scenario{Transition: "DEPLOY", Hosts: 2, Tasks: []c02Task{{Name: "victim", Critical: true, Mode: "fairmq", Host: 1, Outcome: "offer-late"}, {Name: "bc", Critical: true, Mode: "direct", Host: 2, Outcome: "ok"}, {Name: "bn", Critical: false, Mode: "basic", Host: 2, Outcome: "ok"}}},
 	)
+	// a non-critical hook task that never answers its trigger (the trigger's own 90 s timeout expires): a
+	// failure confined to a non-critical hook, every task acknowledges the transition itself
+	out = append(out, c02Scenario{Transition: "START_ACTIVITY", Hosts: 2, Special: "silent-hook-task", Tasks: []c02Task{{Name: "t0", Critical: true, Mode: "direct", Host: 1, Outcome: "ok"}, {Name: "t1", Critical: false, Mode: "basic", Host: 2, Outcome: "ok"}}})
 	// long scenarios that are part of every tier (the code's own 90/120 s command timeouts expire; they
 	// run side by side): a silent target, and a target whose executor is lost just before the request
 	// (the task has lost its executor id, the environment has not noticed yet)
@@ -208,6 +217,9 @@ func c02Scenarios(c *vlib.Ctx) []c02Scenario {
 }
 
 func (sc c02Scenario) long() bool {
+	if sc.Special != "" {
+		return true
+	}
 	for _, t := range sc.Tasks {
 		switch t.Outcome {
 		case "silent", "die", "undeliverable", "exec-lost-before", "exec-lost-racing", "task-failed-before", "reported-unreachable":
@@ -316,6 +328,10 @@ func c02Run(c *vlib.Ctx, idx int, sc c02Scenario) {
 		c.Sample(sc)
 	}
 	c.Nontrivial(vlib.Hash("c02", sc.class()))
+	if sc.Special == "silent-hook-task" {
+		c02SilentHook(c, idx, id, sc)
+		return
+	}
 	wfName := fmt.Sprintf("c02w%d", idx)
 	wf := coresim.WorkflowSpec{Name: wfName, Hosts: []string{"host1"}, Defaults: map[string]string{"deploy_timeout": c02DeployTimeout(sc)}}
 	byName := map[string]c02Task{}
@@ -748,4 +764,83 @@ func c02Run(c *vlib.Ctx, idx int, sc c02Scenario) {
 	ctx2, cancel2 := coresim.Ctx(20 * time.Second)
 	s.Client.DestroyEnvironment(ctx2, &pb.DestroyEnvironmentRequest{Id: envID, Force: true, AllowInRunningState: true})
 	cancel2()
+}
+
+// c02SilentHook: START_ACTIVITY of an environment whose workflow has a non-critical hook task at
+// before_START_ACTIVITY that accepts the trigger and never answers. The failure is confined to a non-critical
+// hook: once the trigger's own timeout has expired the transition must go on, command its tasks (they all
+// acknowledge) and report RUNNING.
+func c02SilentHook(c *vlib.Ctx, idx int, id int64, sc c02Scenario) {
+	wfName := fmt.Sprintf("c02w%d", idx)
+	wf := coresim.WorkflowSpec{Name: wfName, Hosts: []string{"host1"}, Defaults: map[string]string{"deploy_timeout": "60s"}}
+	for _, t := range sc.Tasks {
+		wf.Tasks = append(wf.Tasks, coresim.TaskSpec{Name: t.Name, Host: fmt.Sprintf("host%d", t.Host), Critical: t.Critical, Mode: t.Mode})
+	}
+	wf.Tasks = append(wf.Tasks, coresim.TaskSpec{Name: "hk", Host: "host2", Critical: false, Mode: "basic", Trigger: "before_START_ACTIVITY", Timeout: "5s"})
+	s, err := coresim.Start(coresim.Options{Agents: stdAgents(3), Detectors: stdDetectors(3), Files: wf.Files()})
+	if err != nil {
+		c.Inconclusive("coresim start: " + truncate(err.Error(), 12000))
+		return
+	}
+	obs := &c02Obs{Scenario: sc, Index: idx}
+	defer func() {
+		finishSim(c, s, id, obs)
+		s.Close()
+	}()
+	s.Master.OnLaunch = func(t *simmesos.LaunchedTask) simmesos.LaunchPlan {
+		return simmesos.LaunchPlan{Kind: "running", Delay: 30 * time.Millisecond}
+	}
+	s.Master.OnCommand = func(t *simmesos.LaunchedTask, cmd *simmesos.CommandSeen) simmesos.Reply {
+		if cmd.Name == "MesosCommand_TriggerHook" && strings.HasSuffix(t.RolePath, ".hk") {
+			return simmesos.Reply{Kind: "silent"}
+		}
+		return simmesos.Reply{Kind: "ok"}
+	}
+	ctx, cancel := coresim.Ctx(90 * time.Second)
+	r, err := s.Client.NewEnvironment(ctx, &pb.NewEnvironmentRequest{WorkflowTemplate: wfName})
+	cancel()
+	if err != nil {
+		c.Inconclusive(fmt.Sprintf("scenario %d: fault-free creation failed: %s", idx, truncate(grpcMsg(err), 300)))
+		return
+	}
+	envID := r.GetEnvironment().GetId()
+	apiTimeout := 240 * time.Second
+	t0 := time.Now()
+	ctx, cancel = coresim.Ctx(apiTimeout)
+	rr, err := s.Client.ControlEnvironment(ctx, &pb.ControlEnvironmentRequest{Id: envID, Type: pb.ControlEnvironmentRequest_START_ACTIVITY})
+	cancel()
+	c.Count("transitions_judged", 1)
+	c.Count("transitions_with_a_silent_noncritical_hook_task", 1)
+	obs.Err, obs.ReplyState = grpcMsg(err), rr.GetState()
+	obs.Steps = append(obs.Steps, fmt.Sprintf("START_ACTIVITY err=%q state=%s after %s", truncate(grpcMsg(err), 200), rr.GetState(), time.Since(t0).Round(time.Second)))
+	triggered := false
+	for _, t := range s.Master.Tasks() {
+		if strings.HasSuffix(t.RolePath, ".hk") {
+			for _, cs := range t.Commands {
+				triggered = triggered || cs.Name == "MesosCommand_TriggerHook"
+			}
+		}
+	}
+	if !triggered {
+		c.Inconclusive(fmt.Sprintf("scenario %d: the hook task was never triggered", idx))
+		return
+	}
+	fail := func(rule, what string) {
+		c.Violation(rule, sc.class(), fmt.Sprintf("%s [scenario %d: %+v]", what, idx, sc), id, obs)
+	}
+	if err != nil && strings.Contains(grpcMsg(err), "DeadlineExceeded") {
+		if s.CoreAlive() {
+			waitQuiet(s, 2*time.Second, 5*time.Second)
+			obs.Goroutines = s.DumpGoroutines()
+			obs.CoreLog = s.LogTail(6000)
+			fail("HANG", fmt.Sprintf("START_ACTIVITY did not return within %s with the master quiescent (the hook trigger's timeout is 90 s, every task of the transition answers at once)", apiTimeout))
+		}
+		return
+	}
+	after, _ := envState(s, envID)
+	obs.AfterState = after
+	c.Count("expected_success", 1)
+	if err != nil || after != "RUNNING" {
+		fail("SUCCESS-EXPECTED", fmt.Sprintf("START_ACTIVITY returned %q and the environment is in %s although only a non-critical hook task failed to answer", grpcMsg(err), after))
+	}
 }
